@@ -124,7 +124,9 @@ func (f prefixFilter) Filter(refname string) bool {
 // whose names match the specified `prefix`, which must match the
 // whole reference name.
 func RegexpFilter(pattern string) (ReferenceFilter, error) {
-	pattern = "^" + pattern + "$"
+	// Group the pattern so that the anchors apply to all of it, even
+	// if it contains top-level alternatives like `a|b`:
+	pattern = "^(?:" + pattern + ")$"
 	re, err := regexp.Compile(pattern)
 	if err != nil {
 		return nil, err
